@@ -52,7 +52,7 @@ func rangeInventory(ctx *runCtx) {
 					continue
 				}
 				pos := ctx.prog.Prog.Fset.Position(rg.Pos())
-				if strings.Contains(pos.Filename, "zz_vf_") {
+				if strings.Contains(pos.Filename, "zz_vf_") || strings.Contains(pos.Filename, "/internal/zzvf") {
 					continue
 				}
 				sites[engine.RangeSiteKey(rg)] = true
